@@ -796,6 +796,11 @@ class Interp(ExprMixin, StmtMixin):
         for nme, clause in c.lets.items():
             env[nme] = self.spec_eval(clause, env, clean=True)
         line = self.cur_line
+        for label, clause in c.hints.items():
+            g = as_bool(self.spec_eval(clause, env, clean=True))
+            self.oblige("hint:" + label, g, line, clause=clause)
+            if _has_quantifier(g):
+                st.pc.append(g)
         which = c.ensures
         if self.is_ctxmgr and self.body_raised:
             which = c.ensures_exc
